@@ -18,7 +18,8 @@
 (* the parameter's role.  The post-condition of EVERY such call:           *)
 (*   Outcome   an errno, or a guest trap - never a Go runtime error         *)
 (*   Frame     bytes outside the designated output regions are unchanged   *)
-(*   Table     descriptors other than those the call names keep their type *)
+(*   Table     descriptors other than those the call names keep their type; *)
+(*             a call that fails leaves every descriptor as it was          *)
 (*   Alloc     host allocation stays proportional to the guest memory      *)
 (***************************************************************************)
 EXTENDS Integers, Sequences, FiniteSets, TLC, Json
@@ -55,7 +56,8 @@ Funcs == DOMAIN Sig
 
 (* boundary classes per role; the first one is the valid default *)
 Classes(role) ==
-  CASE role = "fd"    -> <<"file", "stdin", "stdout", "preopen", "dir", "closed", "neg1", "big">>
+  \* washigh: a descriptor number that WAS open (moved there by fd_renumber, then closed); word2: another number of the same 64-block
+  CASE role = "fd"    -> <<"file", "stdin", "stdout", "preopen", "dir", "closed", "neg1", "big", "washigh", "word2">>
     [] role \in {"in", "out", "res", "iovr", "iovw", "evs", "subs"} -> <<"valid", "zero", "end-4", "end-1", "end", "2^31", "max">>
     [] role = "len"   -> <<"8", "0", "1", "page", "2^28", "2^29", "2^31-1", "max">>
     [] role = "cnt"   -> <<"1", "0", "2", "2^28", "2^29", "2^31-1", "max">>
